@@ -131,8 +131,15 @@ class Deduping(DNAGenerator):
     self.generator.feedback(dna, reward)
     self._add_dna_to_cache(dna, reward)
 
+  def recover(self, history) -> None:
+    history = list(history)
+    # Let the wrapped generator restore its own state through its `recover`:
+    # some generators (e.g. evolution) customize `recover`, not `_replay`.
+    self.generator.recover(history)
+    super().recover(history)
+
   def _replay(self, trial_id: int, dna: DNA, reward: Any) -> None:
-    self.generator._replay(trial_id, dna, reward)  # pylint: disable=protected-access
+    del trial_id
     self._add_dna_to_cache(dna, reward)
 
   def _add_dna_to_cache(
